@@ -255,6 +255,12 @@ class Exec:
             if f is not None: return f
         return None
 
+    def vdisc(self, ty, var):
+        """discriminant value of a variant (declaration index unless the enum has explicit discriminants)"""
+        d = M.EXPLICIT_DISCR.get(ty)
+        if d is not None and var in d: return BitVecVal(d[var], 64)
+        return BitVecVal(self.variants[ty].index(var), 64)
+
     def variant_index(self, ty, var):
         if isinstance(var, int): return var
         vs = self.variants.get(ty)
@@ -370,7 +376,7 @@ class Exec:
         if m:
             ty = m.group(1) or m.group(2); var = m.group(3)
             if ty in self.variants and var in self.variants[ty]:
-                return Enum(ty, BitVecVal(self.variants[ty].index(var), 64), {var: []})
+                return Enum(ty, self.vdisc(ty, var), {var: []})
             consts = {('usize', 'MAX'): BitVecVal(2**64 - 1, 64), ('u64', 'MAX'): BitVecVal(2**64 - 1, 64),
                       ('i64', 'MAX'): BitVecVal(2**63 - 1, 64), ('i64', 'MIN'): BitVecVal(-2**63, 64),
                       ('u32', 'MAX'): BitVecVal(2**32 - 1, 32), ('i32', 'MAX'): BitVecVal(2**31 - 1, 32), ('i32', 'MIN'): BitVecVal(-2**31, 32),
@@ -383,7 +389,39 @@ class Exec:
             if f is not None: return self.run_const(f)
         if c.startswith('"'):
             return StrConst(c)
+        m = re.match(r'(?:.*::)?([A-Z][A-Z0-9_]*)$', c)
+        if m:
+            v = self.source_const(m.group(1))
+            if v is not None: return v
         return Opaque('const ' + c)
+
+    def source_const(self, name):
+        """named `const NAME: ty = <numeric literal>;` items are not printed in the MIR dump: read them from the current source"""
+        import os
+        hits = []
+        for mod in self.modules:
+            for root, _, files in os.walk(os.path.join(mod.src_dir, 'src')):
+                for fn in files:
+                    if not fn.endswith('.rs'): continue
+                    try: txt = open(os.path.join(root, fn), encoding='utf-8').read()
+                    except OSError: continue
+                    for mm in re.finditer(r'\bconst\s+%s\s*:\s*([\w:]+)\s*=\s*([^;]+);' % re.escape(name), txt):
+                        hits.append((mm.group(1), mm.group(2).strip()))
+        vals = set(hits)
+        if len(vals) != 1: return None
+        ty, lit = hits[0]
+        lit = lit.replace('_', '')
+        ty = ty.split('::')[-1]
+        try:
+            if ty in ('f64', 'f32'):
+                lit = re.sub(r'f(64|32)$', '', lit)
+                return FPVal(float(lit), F64 if ty == 'f64' else F32)
+            if ty in INT_W:
+                lit = re.sub(r'(u|i)(8|16|32|64|128|size)$', '', lit)
+                return BitVecVal(int(lit, 0), INT_W[ty])
+        except ValueError:
+            return None
+        return None
 
     def run_const(self, f):
         fr = Frame(f)
@@ -404,7 +442,10 @@ class Exec:
 
     def set_discr(self, fr, pl, n):
         v = self.read(fr, pl)
-        if isinstance(v, Enum): v.disc = BitVecVal(n, 64); return
+        if isinstance(v, Enum):
+            d = M.EXPLICIT_DISCR.get(v.ty)
+            if d is not None and v.ty in self.variants and n < len(self.variants[v.ty]): n = d[self.variants[v.ty][n]]
+            v.disc = BitVecVal(n, 64); return
         raise Unsupported('set discriminant of %r' % (v,))
 
     def discr(self, v):
@@ -511,7 +552,11 @@ class Exec:
             if isinstance(c, list) and len(c) == 1 and isinstance(c[0], _Variant):
                 raise Unsupported('reference to whole variant')
             return Ptr(c, key)
-        if k == 'discr': return self.discr(self.read(fr, rv[1]))
+        if k == 'discr':
+            d = self.discr(self.read(fr, rv[1]))
+            ii = int_info(self.place_type(fr, lhs)) if lhs is not None else None
+            if ii and is_bv(d) and ii[0] < d.size(): d = Extract(ii[0] - 1, 0, d)
+            return d
         if k == 'tuple': return [self.operand(fr, o) for o in rv[1]]
         if k == 'array': return [self.operand(fr, o) for o in rv[1]]
         if k == 'repeat':
@@ -528,7 +573,7 @@ class Exec:
             h = self.adt_hook(ty, var, args)
             if h is not None: return h
             if ty in self.variants and var in self.variants[ty]:
-                return Enum(ty, BitVecVal(self.variants[ty].index(var), 64), {var: args})
+                return Enum(ty, self.vdisc(ty, var), {var: args})
             if var in self.variants:      # `Type::<T>(args)` tuple struct whose name is also an enum? no: treat as struct
                 pass
             # tuple struct `mod::Name(args)`
@@ -538,7 +583,7 @@ class Exec:
             vals = [self.operand(fr, o) for _, o in rv[2]]
             segs = M.strip_generics(path).split('::')
             if len(segs) >= 2 and segs[-2] in self.variants and segs[-1] in self.variants[segs[-2]]:
-                return Enum(segs[-2], BitVecVal(self.variants[segs[-2]].index(segs[-1]), 64), {segs[-1]: vals})
+                return Enum(segs[-2], self.vdisc(segs[-2], segs[-1]), {segs[-1]: vals})
             h = self.struct_hook(ty_last(path), [n for n, _ in rv[2]], vals)
             if h is not None: return h
             return vals
